@@ -131,6 +131,14 @@ func c14Run(ctx *core.Ctx) {
 				v := "a" + string(r) + "b@x.test"
 				ops = append(ops, c14Op{Kind: "rcpt", Addr: "r@x.test", ORcptType: "UTF-8", ORcpt: v, Judged: c14Printable(v), Field: "ORCPT-utf8"})
 			}
+			// long values: nothing in the client API limits the length of an envelope id, an
+			// original recipient or an AUTH identity, so nothing on the way may either
+			for _, n := range []int{64, 100, 101, 150, 400} {
+				long := strings.Repeat("ab+ =", n/5+1)[:n]
+				ops = append(ops, c14Op{Kind: "mail", Addr: "s@x.test", EnvID: long, Judged: true, Field: "ENVID-long"})
+				ops = append(ops, c14Op{Kind: "rcpt", Addr: "r@x.test", ORcptType: "RFC822", ORcpt: long + "@x.test", Judged: true, Field: "ORCPT-rfc822-long"})
+				ops = append(ops, c14Op{Kind: "mail", Addr: "s@x.test", HasAuth: true, Auth: strings.Repeat("a", n) + "@x.test", Judged: true, Field: "AUTH-long"})
+			}
 			batch(srv, false, ops)
 		}
 		// (2) every 7-bit value in ENVID / ORCPT rfc822 / AUTH local-part
